@@ -1,0 +1,322 @@
+//go:build verif
+
+// Contracts for package bitstream (kvc). Comment-only file.
+package bitstream
+
+//@ ghost io.Writer out bytes
+//@ ghost io.Writer failed bool
+
+//@ iface io.Writer Write(p) (n, err)
+//@   ensures 0 <= n && n <= len(p)
+//@   ensures err == nil ==> n == len(p)
+//@   ensures err == nil ==> len(this.out) == old(len(this.out)) + len(p)
+//@   ensures err == nil ==> forall i :: 0 <= i && i < old(len(this.out)) ==> this.out[i] == old(this.out[i])
+//@   ensures err == nil ==> forall j :: old(len(this.out)) <= j && j < old(len(this.out)) + len(p) ==> this.out[j] == raw(p, off(p) + j - old(len(this.out)))
+//@   ensures err != nil ==> this.failed
+//@   ensures len(this.out) >= old(len(this.out))
+//@   ensures old(this.failed) ==> this.failed
+//@   modifies this.out, this.failed
+
+//@ spec (this *DefaultOutputBitStream) repFlush() = 0 <= this.position && this.position <= len(this.buffer) && len(this.buffer) % 8 == 0 && 8 <= len(this.buffer) && len(this.buffer) <= 1073741824 && len(this.os.out) >= 0 && this.os != nil
+//@ spec (this *DefaultOutputBitStream) repBuf() = 0 <= this.position && this.position % 8 == 0 && this.position + 8 <= len(this.buffer) && len(this.buffer) % 8 == 0 && len(this.buffer) <= 1073741824 && len(this.os.out) >= 0 && this.os != nil
+
+//@ func (*DefaultOutputBitStream) flush
+//@   mode int
+//@   props C14 C08 C17
+//@   requires this.repFlush()
+//@   assume 0 - 4611686018427387904 <= this.written && this.written <= 4611686018427387904
+//@   ensures old(this.closed) ==> result != nil && len(this.os.out) == old(len(this.os.out))      #closed
+//@   ensures result == nil ==> this.position == 0 && this.written == old(this.written) + 8*old(this.position)   #flushed
+//@   ensures result != nil ==> this.position == old(this.position) && this.written == old(this.written)         #kept
+//@   ensures result == nil ==> len(this.os.out) == old(len(this.os.out)) + old(this.position)                   #sink-len
+//@   ensures result == nil ==> forall j :: old(len(this.os.out)) <= j && j < old(len(this.os.out)) + old(this.position) ==> this.os.out[j] == old(this.buffer[j - len(this.os.out)])   #sink-bytes
+//@   ensures result == nil ==> forall i :: 0 <= i && i < old(len(this.os.out)) ==> this.os.out[i] == old(this.os.out[i])   #sink-prefix
+//@   ensures old(this.os.failed) ==> this.os.failed                                  #failed-sticky
+//@   ensures result != nil && !old(this.closed) ==> this.os.failed                #err-means-sinkfail
+//@   ensures this.repFlush() && (result == nil ==> this.repBuf())
+//@   modifies this.position, this.written, this.os.out, this.os.failed
+
+//@ spec (this *DefaultOutputBitStream) synced() = this.os.failed || this.written == 8*len(this.os.out)
+//@ spec (this *DefaultOutputBitStream) nbytes() = len(this.os.out) + this.position
+//@ spec (this *DefaultOutputBitStream) byteAt(k int) = k < len(this.os.out) ? this.os.out[k] : this.buffer[k - len(this.os.out)]
+//@ spec (this *DefaultOutputBitStream) nbits() = this.written + 8*this.position + 64 - this.availBits
+//@ spec (this *DefaultOutputBitStream) repOpen() = !this.closed && this.repBuf() && len(this.buffer) >= 1024 && 1 <= this.availBits && this.availBits <= 64 && this.synced()
+//@ spec (this *DefaultOutputBitStream) repClosed() = this.closed && this.availBits == 0 && this.position == 0 && len(this.buffer) == 8 && this.repBuf()
+
+//@ func (*DefaultOutputBitStream) Closed
+//@   inline
+
+//@ func (*DefaultOutputBitStream) push
+//@   mode int
+//@   props C14 C08 C17
+//@   requires this.repBuf()
+//@   requires !this.closed ==> this.synced()
+//@   requires this.closed ==> this.repClosed()
+//@   assume 0 - 4611686018427387904 <= this.written && this.written <= 4611686018427387904
+//@   ensures !old(this.closed)                                                              #refuse
+//@   ensures this.repBuf() && this.synced()
+//@   ensures this.written + 8*this.position == old(this.written) + 8*old(this.position) + 64      #counter
+//@   ensures this.nbytes() == old(this.nbytes()) + 8                                        #nbytes
+//@   ensures forall k :: 0 <= k && k < old(this.nbytes()) ==> this.byteAt(k) == old(this.byteAt(k))     #prefix
+//@   ensures this.byteAt(old(this.nbytes())+0) == byte(val >> 56) && this.byteAt(old(this.nbytes())+1) == byte(val >> 48)
+//@        && this.byteAt(old(this.nbytes())+2) == byte(val >> 40) && this.byteAt(old(this.nbytes())+3) == byte(val >> 32)
+//@        && this.byteAt(old(this.nbytes())+4) == byte(val >> 24) && this.byteAt(old(this.nbytes())+5) == byte(val >> 16)
+//@        && this.byteAt(old(this.nbytes())+6) == byte(val >> 8) && this.byteAt(old(this.nbytes())+7) == byte(val)     #word
+//@   panics old(this.closed) || this.os.failed                                              #panics
+//@   panics old(this.closed) ==> len(this.os.out) == old(len(this.os.out))                  #closed-writes-nothing
+//@   panics this.written + 8*this.position == old(this.written) + 8*old(this.position) + 64 && this.written >= old(this.written)     #panic-state
+//@   modifies this.position, this.written, this.buffer[*], this.os.out, this.os.failed
+
+//@ func (*DefaultOutputBitStream) Written
+//@   mode int
+//@   props C14 C17
+//@   requires this.nbits() >= 0 && this.nbits() <= 4611686018427387904 && 0 <= this.position && this.position <= 1073741824 && this.availBits <= 64
+//@   requires 0 - 4611686018427387904 <= this.written && this.written <= 4611686018427387904
+//@   ensures result == this.nbits()            #is-nbits
+//@   modifies nothing
+
+//@ func (*DefaultOutputBitStream) WriteBits
+//@   mode int
+//@   props C14 C17 C08
+//@   requires this.closed ==> this.repClosed()
+//@   requires !this.closed ==> this.repOpen()
+//@   assume 0 - 4611686018427387904 <= this.written && this.written <= 4611686018427387904
+//@   ensures !old(this.closed) && count <= 64                                   #refuse
+//@   ensures result == count                                                    #result
+//@   ensures this.repOpen()                                                     #rep
+//@   ensures this.nbits() == old(this.nbits()) + count                          #counter
+//@   ensures this.availBits == (count < old(this.availBits) ? old(this.availBits) - count : 64 - (count - old(this.availBits)))    #avail
+//@   ensures this.nbytes() == old(this.nbytes()) || this.nbytes() == old(this.nbytes()) + 8      #nbytes
+//@   ensures forall k :: 0 <= k && k < old(this.nbytes()) ==> this.byteAt(k) == old(this.byteAt(k))     #prefix
+//@   panics old(this.closed) || count > 64 || this.os.failed                    #panics
+//@   panics old(this.closed) ==> len(this.os.out) == old(len(this.os.out))      #closed-writes-nothing
+//@   modifies this.current, this.availBits, this.position, this.written, this.buffer[*], this.os.out, this.os.failed
+
+//@ func (*DefaultOutputBitStream) WriteBit
+//@   mode int
+//@   props C14 C17 C08
+//@   requires this.closed ==> this.repClosed()
+//@   requires !this.closed ==> this.repOpen()
+//@   assume 0 - 4611686018427387904 <= this.written && this.written <= 4611686018427387904
+//@   ensures !old(this.closed)                                                  #refuse
+//@   ensures this.repOpen()                                                     #rep
+//@   ensures this.nbits() == old(this.nbits()) + 1                              #counter
+//@   ensures this.availBits == (1 < old(this.availBits) ? old(this.availBits) - 1 : 64)    #avail
+//@   ensures forall k :: 0 <= k && k < old(this.nbytes()) ==> this.byteAt(k) == old(this.byteAt(k))     #prefix
+//@   panics old(this.closed) || this.os.failed                                  #panics
+//@   panics old(this.closed) ==> len(this.os.out) == old(len(this.os.out))      #closed-writes-nothing
+//@   modifies this.current, this.availBits, this.position, this.written, this.buffer[*], this.os.out, this.os.failed
+
+//@ func (*DefaultOutputBitStream) Close
+//@   mode int
+//@   props C14 C17 C08 C09
+//@   requires this.closed ==> this.repClosed()
+//@   requires !this.closed ==> this.repOpen()
+//@   assume 0 - 4611686018427387904 <= this.written && this.written <= 4611686018427387904
+//@   ensures old(this.closed) ==> result == nil && this.repClosed() && this.written == old(this.written) && len(this.os.out) == old(len(this.os.out))    #idempotent
+//@   ensures result == nil ==> this.repClosed()                                                #closed
+//@   ensures result == nil ==> this.nbits() == old(this.nbits())                               #written-unchanged
+//@   ensures result == nil && !old(this.closed) && !this.os.failed ==> 8*len(this.os.out) >= old(this.nbits()) && 8*len(this.os.out) < old(this.nbits()) + 8       #all-bytes-reached-sink
+//@   ensures result != nil ==> this.repOpen() && this.availBits == old(this.availBits) && this.position == old(this.position) && this.current == old(this.current) && this.os.failed    #restored
+//@   ensures result != nil ==> this.nbits() == old(this.nbits()) && this.written == old(this.written)     #restored-counter
+//@   modifies this.closed, this.current, this.availBits, this.position, this.written, this.buffer, this.buffer[*], this.os.out, this.os.failed
+//@   loop 1 invariant !this.closed && this.os != nil && this.written == old(this.written) && this.synced() && len(this.os.out) == old(len(this.os.out)) && (this.os.failed <==> old(this.os.failed))
+//@   loop 1 invariant old(this.position) <= this.position && this.position <= old(this.position) + 8 && this.availBits == old(this.availBits) + 8*(this.position - old(this.position)) && this.availBits <= 71
+//@   loop 1 invariant this.position - old(this.position) <= 7 ==> shift == 56 - 8*(this.position - old(this.position))
+//@   loop 1 invariant savedBitIndex == old(this.availBits) && savedPosition == old(this.position) && savedCurrent == old(this.current) && savedWritten == old(this.written) && this.buffer == old(this.buffer)
+//@   loop 1 assume this.wbound()
+//@   loop 1 decreases 72 - this.availBits
+
+//@ spec (this *DefaultOutputBitStream) wbound() = 0 - 4611686018427387904 <= this.written && this.written <= 4611686018427387904
+
+//@ func (*DefaultOutputBitStream) WriteArray
+//@   mode int
+//@   props C14 C17 C08
+//@   requires this.closed ==> this.repClosed()
+//@   requires !this.closed ==> this.repOpen()
+//@   assume this.wbound()
+//@   ensures !old(this.closed) && count <= 8*len(bits)                          #refuse
+//@   ensures result == count                                                    #result
+//@   ensures this.repOpen()                                                     #rep
+//@   ensures this.nbits() == old(this.nbits()) + count                          #counter
+//@   panics old(this.closed) || count > 8*len(bits) || this.os.failed           #panics
+//@   panics old(this.closed) ==> len(this.os.out) == old(len(this.os.out)) && this.written == old(this.written) && this.position == old(this.position) && this.availBits == old(this.availBits)   #closed-writes-nothing
+//@   modifies this.current, this.availBits, this.position, this.written, this.buffer[*], this.os.out, this.os.failed
+//@   loop 1 invariant this.repOpen() && this.availBits % 8 == 0 && 0 <= remaining && remaining <= count && 8*start == count - remaining && start >= 0 && this.nbits() == old(this.nbits()) + count - remaining
+//@   loop 1 assume this.wbound()
+//@   loop 1 decreases remaining
+//@   loop 2 invariant this.repOpen() && this.availBits % 8 == 0 && 0 <= remaining && remaining <= count && 8*start == count - remaining && start >= 0 && this.nbits() == old(this.nbits()) + count - remaining && maxPos == len(this.buffer) - 8
+//@   loop 2 assume this.wbound()
+//@   loop 2 decreases 2*remaining + (this.position > 0 ? 1 : 0)
+//@   loop 3 invariant !this.closed && this.repBuf() && len(this.buffer) >= 1024 && this.synced() && 1 <= a && a <= 63 && r == 64 - a && (this.availBits == a || this.availBits == 64)
+//@   loop 3 invariant 0 <= remaining && remaining <= count && 8*start == count - remaining && start >= 0 && this.written + 8*this.position + 64 - a == old(this.nbits()) + count - remaining
+//@   loop 3 assume this.wbound()
+//@   loop 3 decreases remaining
+//@   loop 4 invariant !this.closed && this.repBuf() && len(this.buffer) >= 1024 && this.synced() && 1 <= a && a <= 63 && r == 64 - a && (this.availBits == a || this.availBits == 64)
+//@   loop 4 invariant 0 <= remaining && remaining <= count && 8*start == count - remaining && start >= 0 && this.written + 8*this.position + 64 - a == old(this.nbits()) + count - remaining
+//@   loop 4 assume this.wbound()
+//@   loop 4 decreases remaining
+//@   loop 5 invariant this.repOpen() && 0 <= remaining && remaining <= count && 8*start == count - remaining && start >= 0 && this.nbits() == old(this.nbits()) + count - remaining
+//@   loop 5 assume this.wbound()
+//@   loop 5 decreases remaining
+
+//@ -- ------------------------------------------------------------------ input side
+//@ ghost io.Reader src bytes
+//@ ghost io.Reader cur int
+
+//@ iface io.Reader Read(p) (n, err)
+//@   ensures 0 <= n && n <= len(p)
+//@   ensures this.cur == old(this.cur) + n && this.cur <= len(this.src)
+//@   ensures forall q :: off(p) <= q && q < off(p) + n ==> raw(p, q) == this.src[old(this.cur) + q - off(p)]
+//@   ensures err != nil ==> this.cur == len(this.src)
+//@   ensures n == 0 && len(p) > 0 ==> err != nil
+//@   modifies p[*], this.cur
+
+//@ spec (this *DefaultInputBitStream) srcDone() = this.is.cur == len(this.is.src)
+//@ spec (this *DefaultInputBitStream) unread() = this.maxPosition >= this.position ? this.maxPosition + 1 - this.position : 0
+//@ spec (this *DefaultInputBitStream) base() = this.is.cur - (this.maxPosition + 1)
+//@ spec (this *DefaultInputBitStream) rbits() = this.read + 8*this.position - this.availBits
+//@ spec (this *DefaultInputBitStream) repIn() = !this.closed && this.is != nil && 0 - 1 <= this.maxPosition && this.maxPosition < len(this.buffer) && 0 <= this.position && this.position <= len(this.buffer) && this.availBits <= 64 && len(this.buffer) % 8 == 0 && len(this.buffer) >= 1024 && len(this.buffer) <= 1073741824 && 0 <= this.is.cur && this.is.cur <= len(this.is.src) && this.read + 8*this.position == 8*(this.is.cur - this.unread()) && this.availBits <= this.read + 8*this.position && (this.pendingErr != nil ==> this.srcDone()) && (this.position > this.maxPosition + 1 ==> this.srcDone()) && this.read + 8*this.position <= 8*len(this.is.src) && (this.srcDone() || ((this.maxPosition + 1) % 8 == 0 && this.position % 8 == 0))
+//@ spec (this *DefaultInputBitStream) bufOK() = forall q :: off(this.buffer) + this.position <= q && q <= off(this.buffer) + this.maxPosition ==> raw(this.buffer, q) == this.is.src[this.base() + q - off(this.buffer)]
+//@ spec (this *DefaultInputBitStream) repInClosed() = this.closed && this.availBits == 0 && this.maxPosition == 0 - 1 && 0 <= this.position && this.position <= 1073741824 && this.is != nil
+//@ spec (this *DefaultInputBitStream) rbound() = 0 - 4611686018427387904 <= this.read && this.read <= 4611686018427387904
+
+//@ func (*DefaultInputBitStream) Closed
+//@   inline
+
+//@ func (*DefaultInputBitStream) readFromInputStream
+//@   mode int
+//@   props C06 C08 C09 C14
+//@   requires this.closed ==> this.repInClosed()
+//@   requires !this.closed ==> this.repIn() && this.position >= this.maxPosition + 1 && count == len(this.buffer)
+//@   assume this.rbound()
+//@   ensures old(this.closed) ==> result1 != nil && this.repInClosed() && this.read == old(this.read) && this.position == old(this.position)    #closed
+//@   ensures !old(this.closed) ==> this.repIn()                                                                    #rep
+//@   ensures !old(this.closed) ==> this.rbits() == old(this.rbits())                                              #consumed-unchanged
+//@   ensures !old(this.closed) ==> this.bufOK()                                                                   #buffer-mirrors-source
+//@   ensures result1 == nil && count > 0 ==> result0 >= 1 && this.position == 0 && this.maxPosition == result0 - 1     #refilled
+//@   ensures result1 != nil ==> result0 == 0 && (old(this.closed) || this.srcDone() || old(this.pendingErr) != nil)   #error-is-real
+//@   ensures result1 != nil && !old(this.closed) ==> this.maxPosition == 0 - 1                                   #error-empties
+//@   ensures result1 == nil && count > 0 ==> ((this.maxPosition + 1) % 8 == 0 || this.srcDone())                #whole-words-unless-done
+//@   modifies this.read, this.position, this.maxPosition, this.pendingErr, this.buffer[*], this.is.cur
+//@   loop 1 invariant !this.closed && this.is != nil && 0 <= size && size <= count && count <= len(this.buffer) && this.position == 0 && this.read == old(this.read) + 8*old(this.position)
+//@   loop 1 invariant this.is.cur == old(this.is.cur) + size && this.is.cur <= len(this.is.src) && (err != nil ==> this.srcDone()) && (size == 0 ==> err != nil)
+//@   loop 1 invariant forall q :: off(this.buffer) <= q && q < off(this.buffer) + size ==> raw(this.buffer, q) == this.is.src[old(this.is.cur) + q - off(this.buffer)]
+//@   loop 1 invariant this.maxPosition == old(this.maxPosition) && this.pendingErr == old(this.pendingErr) && this.availBits == old(this.availBits) && this.buffer == old(this.buffer)
+//@   loop 1 decreases count - size
+
+//@ spec (this *DefaultInputBitStream) srcIdx() = this.is.cur - this.unread()
+//@ spec be64(s bytes, k int) = 72057594037927936*s[k] + 281474976710656*s[k+1] + 1099511627776*s[k+2] + 4294967296*s[k+3] + 16777216*s[k+4] + 65536*s[k+5] + 256*s[k+6] + s[k+7]
+
+//@ func (*DefaultInputBitStream) pull
+//@   mode int
+//@   props C06 C08 C09 C14
+//@   requires this.closed ==> this.repInClosed()
+//@   requires !this.closed ==> this.repIn()
+//@   assume this.rbound()
+//@   ensures !old(this.closed) && this.repIn()                                               #rep
+//@   ensures 8 <= result1 && result1 <= 64 && result1 % 8 == 0                               #avail-range
+//@   ensures this.read + 8*this.position == old(this.read + 8*this.position) + result1       #consumed
+//@   ensures this.srcIdx() == old(this.srcIdx()) + result1 / 8                               #src-advance
+//@   ensures result1 == 64 || this.srcIdx() == len(this.is.src)                             #full-word-unless-drained
+//@   ensures old(this.bufOK()) && result1 == 64 ==> result0 == be64(this.is.src, old(this.srcIdx()))              #word-value
+//@   ensures old(this.bufOK()) ==> this.bufOK()                                              #buffer-mirrors-source
+//@   ensures this.availBits == old(this.availBits) && this.current == old(this.current)      #acc-untouched
+//@   panics old(this.closed) || this.srcDone()                                              #panics
+//@   panics !old(this.closed) ==> this.repIn() && this.rbits() == old(this.rbits()) && this.availBits == old(this.availBits)        #panic-state
+//@   panics old(this.closed) ==> this.repInClosed()                                          #panic-closed
+//@   modifies this.read, this.position, this.maxPosition, this.pendingErr, this.buffer[*], this.is.cur
+//@   loop 1 invariant !this.closed && this.srcDone() && this.is != nil && this.maxPosition < len(this.buffer) && loopentry(this.position) <= this.position && this.position <= this.maxPosition + 1 && (this.position <= this.maxPosition ==> shift == 8*(this.maxPosition - this.position)) && 0 <= loopentry(this.position) && this.maxPosition - loopentry(this.position) <= 6
+//@   loop 1 invariant this.maxPosition == loopentry(this.maxPosition) && this.read == loopentry(this.read) && this.is.cur == loopentry(this.is.cur) && this.availBits == old(this.availBits) && this.current == old(this.current) && this.pendingErr == loopentry(this.pendingErr) && this.buffer == old(this.buffer)
+//@   loop 1 invariant avail == 8*(this.maxPosition - loopentry(this.position)) + 8
+//@   loop 1 decreases this.maxPosition + 1 - this.position
+
+//@ func (*DefaultInputBitStream) Read
+//@   mode int
+//@   props C14 C17 C06
+//@   requires 0 <= this.rbits() && this.rbits() <= 4611686018427387904 && this.availBits <= 64 && 0 <= this.position && this.position <= 1073741824 && this.rbound()
+//@   ensures result == this.rbits()                 #is-rbits
+//@   modifies nothing
+
+//@ func (*DefaultInputBitStream) ReadBit
+//@   mode int
+//@   props C06 C08 C09 C14 C17
+//@   requires this.closed ==> this.repInClosed()
+//@   requires !this.closed ==> this.repIn()
+//@   assume this.rbound()
+//@   ensures !old(this.closed) && this.repIn()                                  #rep
+//@   ensures this.rbits() == old(this.rbits()) + 1                              #counter
+//@   ensures this.rbits() <= 8*len(this.is.src)                                 #within-source
+//@   ensures result == 0 || result == 1                                         #bit
+//@   panics old(this.closed) || this.srcDone()                                 #panics
+//@   panics !old(this.closed) ==> this.repIn() && this.rbits() == old(this.rbits())   #panic-state
+//@   panics old(this.closed) ==> this.repInClosed()
+//@   modifies this.current, this.availBits, this.read, this.position, this.maxPosition, this.pendingErr, this.buffer[*], this.is.cur
+
+//@ func (*DefaultInputBitStream) ReadBits
+//@   mode int
+//@   props C06 C08 C09 C14 C17
+//@   requires this.closed ==> this.repInClosed()
+//@   requires !this.closed ==> this.repIn()
+//@   assume this.rbound()
+//@   decreases 2*count + (this.availBits == 0 ? 1 : 0)
+//@   ensures !old(this.closed) && this.repIn() && 1 <= count && count <= 64    #rep
+//@   ensures this.rbits() == old(this.rbits()) + count                          #counter
+//@   ensures this.rbits() <= 8*len(this.is.src)                                 #within-source
+//@   panics old(this.closed) || this.srcDone() || count == 0 || count > 64     #panics
+//@   panics !old(this.closed) ==> this.repIn() && old(this.rbits()) <= this.rbits() && this.rbits() <= old(this.rbits()) + count   #panic-state
+//@   panics old(this.closed) ==> this.repInClosed()
+//@   modifies this.current, this.availBits, this.read, this.position, this.maxPosition, this.pendingErr, this.buffer[*], this.is.cur
+
+//@ func (*DefaultInputBitStream) HasMoreToRead
+//@   mode int
+//@   props C06 C08 C09
+//@   requires this.closed ==> this.repInClosed()
+//@   requires !this.closed ==> this.repIn()
+//@   assume this.rbound()
+//@   ensures old(this.closed) ==> !result0 && result1 != nil
+//@   ensures !old(this.closed) ==> this.repIn() && this.rbits() == old(this.rbits())      #no-consumption
+//@   ensures result0 <==> result1 == nil                                                  #consistent
+//@   ensures result0 ==> this.rbits() < 8*len(this.is.src)                                #true-means-data
+//@   ensures !result0 && !old(this.closed) ==> this.srcDone()                            #false-means-done
+//@   modifies this.read, this.position, this.maxPosition, this.pendingErr, this.buffer[*], this.is.cur
+
+//@ func (*DefaultInputBitStream) Close
+//@   mode int
+//@   props C14 C17
+//@   requires this.closed ==> this.repInClosed()
+//@   requires !this.closed ==> this.repIn()
+//@   assume this.rbound()
+//@   ensures result == nil && this.repInClosed()                                #closed
+//@   ensures this.rbits() == old(this.rbits())                                  #read-unchanged
+//@   modifies this.closed, this.read, this.availBits, this.maxPosition, this.pendingErr
+
+//@ func (*DefaultInputBitStream) ReadArray
+//@   mode int
+//@   props C06 C08 C09 C14 C17
+//@   requires count <= 8*len(bits)
+//@   requires this.closed ==> this.repInClosed()
+//@   requires !this.closed ==> this.repIn()
+//@   assume this.rbound()
+//@   ensures !old(this.closed) && this.repIn() && result == count               #rep
+//@   ensures this.rbits() == old(this.rbits()) + count                          #counter
+//@   ensures this.rbits() <= 8*len(this.is.src)                                 #within-source
+//@   panics old(this.closed) || this.srcDone()                                  #panics
+//@   panics old(this.closed) ==> this.repInClosed() && this.read == old(this.read) && this.position == old(this.position)     #closed-reads-nothing
+//@   panics !old(this.closed) ==> this.repIn()                                  #panic-state
+//@   modifies bits[*], this.current, this.availBits, this.read, this.position, this.maxPosition, this.pendingErr, this.buffer[*], this.is.cur
+//@   loop 1 invariant this.repIn() && 0 <= remaining && remaining <= count && 8*start == count - remaining && start >= 0 && this.rbits() == old(this.rbits()) + count - remaining && this.availBits % 8 == 0
+//@   loop 1 assume this.rbound()
+//@   loop 1 decreases remaining
+//@   loop 2 invariant this.repIn() && 0 <= remaining && remaining <= count && 8*start == count - remaining && start >= 0 && this.rbits() == old(this.rbits()) + count - remaining && availBytes == this.maxPosition + 1 - this.position && (this.availBits == 0 || remaining < 8)
+//@   loop 2 assume this.rbound()
+//@   loop 2 decreases 2*remaining + (availBytes <= 0 ? 1 : 0)
+//@   loop 3 invariant this.repIn() && 0 <= remaining && remaining <= count && 8*start == count - remaining && start >= 0 && this.rbits() == old(this.rbits()) + count - remaining && 1 <= a && a <= 63 && r == 64 - a && (this.availBits == a || this.srcIdx() == len(this.is.src))
+//@   loop 3 assume this.rbound()
+//@   loop 3 decreases remaining
+//@   loop 4 invariant this.repIn() && 0 <= remaining && remaining <= count && 8*start == count - remaining && start >= 0 && this.rbits() == old(this.rbits()) + count - remaining && 1 <= a && a <= 63 && r == 64 - a && (this.availBits == a || this.srcIdx() == len(this.is.src))
+//@   loop 4 assume this.rbound()
+//@   loop 4 decreases remaining
+//@   loop 5 invariant this.repIn() && 0 <= remaining && remaining <= count && 8*start == count - remaining && start >= 0 && this.rbits() == old(this.rbits()) + count - remaining
+//@   loop 5 assume this.rbound()
+//@   loop 5 decreases remaining
